@@ -98,7 +98,8 @@ func c06Subtree(r *R) {
 	nW := 1 + r.Choose(2)
 	var watchers []vivid.ActorRef
 	for i := 0; i < nW; i++ {
-		ref, err := w.Spawn(&Spec{Name: fmt.Sprintf("w%d", i)})
+		// the watchers' paths (/a0, /a1) have the top actor's path (/a) as a string prefix without being its descendants
+		ref, err := w.Spawn(&Spec{Name: fmt.Sprintf("a%d", i)})
 		if err != nil {
 			r.Fail("C06/harness", "spawn watcher: %v", err)
 			return
@@ -275,7 +276,7 @@ func c06Subtree(r *R) {
 		}
 	}
 	for wi := range watchers {
-		wpath := fmt.Sprintf("/w%d", wi)
+		wpath := fmt.Sprintf("/a%d", wi)
 		for _, p := range allPaths {
 			if !mustDie[p] || len(killedEvtIdx[p]) == 0 {
 				continue
